@@ -8,6 +8,9 @@
 //     geometric::EST: uniform01 draws from the tape T (or, with T -1 <localSeed>, from the planner's own generator reseeded with that
 //     local seed: no hook involved), sampleNear results from P (- - = sampleNear fails), linear NN;
 //     output "est <n>; x y p; ... | report | w0 w1 ..." (the PDF weight of every motion)
+//   RRTS <maxDistance> <goalBias> <threshold> <work 0/1> <costThreshold> <rewireFactor> <iters> W .. S .. G <gx> <gy> T <nt> {u}* P <np> {x y}*
+//     geometric::RRTstar (defaults: k-nearest, delayed collision checking), path length or mechanical-work objective;
+//     output "rrts <n>; x y p inc cost; ... | report (approx diff stored optimized) | path"
 //   output: one line "rrt <n>; x y p; ... | <reported 0/1> <approx> <diff> | x y; ..." with doubles as bit patterns
 #define protected public
 #include <ompl/geometric/planners/rrt/RRT.h>
@@ -15,6 +18,7 @@
 #include <ompl/geometric/planners/rrt/LazyRRT.h>
 #include <ompl/geometric/planners/rlrt/RLRT.h>
 #include <ompl/geometric/planners/est/EST.h>
+#include <ompl/geometric/planners/rrt/RRTstar.h>
 #undef protected
 #include <ompl/base/goals/GoalStates.h>
 #include <ompl/base/spaces/RealVectorStateSpace.h>
@@ -22,6 +26,8 @@
 #include <ompl/base/ProblemDefinition.h>
 #include <ompl/base/MotionValidator.h>
 #include <ompl/base/ValidStateSampler.h>
+#include <ompl/base/objectives/PathLengthOptimizationObjective.h>
+#include <ompl/base/objectives/MechanicalWorkOptimizationObjective.h>
 #include <ompl/base/goals/GoalState.h>
 #include <ompl/base/terminationconditions/IterationTerminationCondition.h>
 #include <ompl/datastructures/NearestNeighborsLinear.h>
@@ -68,6 +74,13 @@ public:
     }
     void sampleUniformNear(ob::State *s, const ob::State *, double) override { sampleUniform(s); }
     void sampleGaussian(ob::State *s, const ob::State *, double) override { sampleUniform(s); }
+};
+// mechanical work over the potential 1 + 4 y, path-length weight 0.05 (a direction-dependent objective)
+class SlopeWork2 : public ob::MechanicalWorkOptimizationObjective
+{
+public:
+    SlopeWork2(const ob::SpaceInformationPtr &si) : ob::MechanicalWorkOptimizationObjective(si, 0.05) {}
+    ob::Cost stateCost(const ob::State *s) const override { return ob::Cost(1.0 + 4.0 * s->as<ob::RealVectorStateSpace::StateType>()->values[1]); }
 };
 class ScriptVSS : public ob::ValidStateSampler
 {
@@ -139,6 +152,48 @@ int main()
             };
             std::printf("%s", cmd == "RRTCN" ? "rrtcn" : "rrtc"); dump(planner->tStart_); std::printf(" /"); dump(planner->tGoal_);
             for (auto &r : creps) std::printf("%s", r.c_str());
+            std::printf("\n"); std::fflush(stdout);
+            continue;
+        }
+        if (cmd == "RRTS")
+        {
+            int work = 0; double cthr = 0, rf = 1.1; in >> maxd >> bias >> thr >> work >> cthr >> rf >> iters;
+            std::vector<Wall> swalls; std::vector<std::pair<double, double>> sst; double sgx = 0, sgy = 0; int sn; std::vector<double> stape;
+            auto sq = std::make_shared<std::deque<std::pair<double, double>>>();
+            in >> tag >> sn; for (int i = 0; i < sn; ++i) { Wall k; in >> k.w >> k.lo >> k.hi; swalls.push_back(k); }
+            in >> tag >> sn; for (int i = 0; i < sn; ++i) { double x, y; in >> x >> y; sst.emplace_back(x, y); }
+            in >> tag >> sgx >> sgy;
+            in >> tag >> sn; for (int i = 0; i < sn; ++i) { double u; in >> u; stape.push_back(u); }
+            in >> tag >> sn; for (int i = 0; i < sn; ++i) { double x, y; in >> x >> y; sq->emplace_back(x, y); }
+            auto space = std::make_shared<ob::RealVectorStateSpace>(2); space->setBounds(-100, 100);
+            space->setStateSamplerAllocator([sq](const ob::StateSpace *sp) { return std::make_shared<ScriptSampler>(sp, sq); });
+            auto si = std::make_shared<ob::SpaceInformation>(space);
+            si->setStateValidityChecker([](const ob::State *) { return true; });
+            si->setMotionValidator(std::make_shared<WallMV>(si, swalls)); si->setup();
+            auto pdef = std::make_shared<ob::ProblemDefinition>(si);
+            for (auto &s : sst) { ob::ScopedState<> a(space); a[0] = s.first; a[1] = s.second; pdef->addStartState(a); }
+            ob::ScopedState<> g(space); g[0] = sgx; g[1] = sgy; pdef->setGoalState(g, thr);
+            ob::OptimizationObjectivePtr obj; if (work) obj = std::make_shared<SlopeWork2>(si); else obj = std::make_shared<ob::PathLengthOptimizationObjective>(si);
+            obj->setCostThreshold(ob::Cost(cthr)); pdef->setOptimizationObjective(obj);
+            auto sp = std::make_shared<og::RRTstar>(si);
+            sp->setNearestNeighbors<ompl::NearestNeighborsLinear>(); sp->setRange(maxd); sp->setGoalBias(bias); sp->setRewireFactor(rf);
+            sp->setProblemDefinition(pdef); sp->setup();
+            unsigned cnt = 0; const unsigned lim = iters;
+            ompl::RNG::verifSetTape(stape.data(), stape.size());
+            sp->solve(ob::PlannerTerminationCondition([&cnt, lim] { return cnt++ >= lim; }));
+            ompl::RNG::verifSetTape(nullptr, 0);
+            std::vector<og::RRTstar::Motion *> ms; sp->nn_->list(ms);
+            std::map<const og::RRTstar::Motion *, long> idx; for (std::size_t i = 0; i < ms.size(); ++i) idx[ms[i]] = (long)i;
+            std::printf("rrts %zu;", ms.size());
+            for (auto *m : ms) { const double *v = m->state->as<ob::RealVectorStateSpace::StateType>()->values; std::printf(" %016llx %016llx %ld %016llx %016llx;", bits(v[0]), bits(v[1]), m->parent ? idx[m->parent] : -1L, bits(m->incCost.value()), bits(m->cost.value())); }
+            if (pdef->hasSolution())
+            {
+                auto sols = pdef->getSolutions(); auto &top = sols[0];
+                auto path = std::dynamic_pointer_cast<og::PathGeometric>(top.path_);
+                std::printf(" | 1 %d %016llx %016llx %d |", top.approximate_ ? 1 : 0, bits(top.approximate_ ? top.difference_ : 0.0), bits(top.cost_.value()), top.optimized_ ? 1 : 0);
+                for (std::size_t i = 0; i < path->getStateCount(); ++i) { const double *v = path->getState(i)->as<ob::RealVectorStateSpace::StateType>()->values; std::printf(" %016llx %016llx;", bits(v[0]), bits(v[1])); }
+            }
+            else std::printf(" | 0 |");
             std::printf("\n"); std::fflush(stdout);
             continue;
         }
